@@ -23,6 +23,7 @@ META = {
     "required_counters": ["messages_compared", "multi_fragment_cases"],
     "assumptions": [],
 }
+META["claim"] += " " + 'Also: two or three connections of one process, each in the middle of its own fragmented message, served alternately (reassembly state is per connection).'
 
 TEXTS = ["", "a", "é", "€", "\U0001f600", "ab€"[:2] + "c", "aé"]
 BINS = [b"", b"\x00", b"\xff\xfe", b"\x80\x81\x82", b"\xc3\x28\xa0\xa1"]
